@@ -26,10 +26,3 @@ Definition selects (r : res pyv) : option (list Z) :=
   | Ok (VSlice (VInt s) (VInt e) (VInt st)) => Some (range_list s e st)
   | _ => None
   end.
-
-(* domain clause D1: a user-given stop inside [step, -1] together with a negative step *)
-Definition d1_clause (stop step : option Z) : bool :=
-  match step, stop with
-  | Some st, Some e => negb ((st <? 0) && (st <=? e) && (e <? 0))
-  | _, _ => true
-  end.
